@@ -861,7 +861,7 @@ func (p *player) step(s ScStep) {
 			b = 3000
 		}
 		p.touch() // at least one idle interval from now
-		if p.quiesce(40*time.Millisecond, time.Duration(b)*time.Millisecond) {
+		if p.quiesce(60*time.Millisecond, time.Duration(b)*time.Millisecond) {
 			// nothing moved for a whole idle interval: what was submitted before has had its chance to reach the wires
 			p.rec.Put(M{"e": "Quiesced", "t": p.ms()})
 		}
